@@ -1,3 +1,10 @@
-(* Props/C03.v -- property theorems only. *)
+(* Props/C03.v -- property theorems only: Theorem / exact lemma / Check (pins the statement) / Print Assumptions. *)
 From Coq Require Import List Arith.
-From OV Require Import Base.Panic Base.Arith Model.Vector Model.Matrix Model.MatOps.
+From OV Require Import Base.Panic Base.Arith Model.Vector Model.Matrix Model.MatOps Proofs.Matrix.
+
+Theorem mat_new_wf : forall (A : Arith) r c (x : A),
+  wf (mat_new r c x) /\ rows (mat_new r c x) = r /\ cols (mat_new r c x) = c.
+Proof. intros A r c x. exact (mat_new_wf_lemma r c x). Qed.
+Check mat_new_wf : forall (A : Arith) r c (x : A),
+  wf (mat_new r c x) /\ rows (mat_new r c x) = r /\ cols (mat_new r c x) = c.
+Print Assumptions mat_new_wf.
